@@ -464,7 +464,25 @@ def check_reference_composition(case):
             raise Violation("composition" if rep == 1 else "composition-second-call",
                             f"call {rep}: result differs from model/restoration(balancing(cleaning("
                             f"reduction(difference)))) by {err!r} (stages {s.kinds})", t)
-    return Outcome(_nontrivial(case), _key(case), _labels(case), evals=2)
+    # the analysis follows a model that is re-parametrised between calls (as a calibration does),
+    # including parameters that are set back to exactly zero
+    evals = 2
+    if s.kinds[3] == "linear" and s.s_mod is not None:
+        mdl = s.s_mod.fn
+        for step, (sc, off) in enumerate(((3.0, 0.25), (3.0, 0.0), (0.0, 0.5), (2.0, 0.0))):
+            if step % 2 == 0:
+                mdl.update(scaling=sc, offset=off)
+            else:
+                mdl.update_model_parameters(np.array([sc, off]), None)
+            s.r_mod = (lambda x, sc=sc, off=off: sc * x + off)
+            ref2 = s.reference()
+            got = np.asarray(_run(s, ca).img)
+            evals += 1
+            if got.shape != ref2["out"].shape or not s.close(got, ref2["out"]):
+                raise Violation("composition-after-model-update", f"after setting the linear model to scaling {sc}, "
+                                f"offset {off} (update {step + 1}) the result is not model(...) with these "
+                                f"parameters", t)
+    return Outcome(_nontrivial(case), _key(case), _labels(case), evals=evals)
 
 
 # ---------------------------------------------------------------------------------------
